@@ -315,12 +315,21 @@ def canon(e, env):
         # closure parameters are named by position (a0, a1 .. at depth 0, b0 .. inside)
         env2 = dict(env)
         names = _bind_params(e.get('params', []), env2)
-        return '|%s| %s' % (', '.join(names), canon(e['ch'][0], env2))
+        body_ = canon(e['ch'][0], env2)
+        if len(names) == 1 and body_ == 'VALID(%s)' % names[0]:
+            return 'IsNone::not_none'          # eta: |x| x.not_none()
+        if len(names) == 1 and body_ == '!VALID(%s)' % names[0]:
+            return 'IsNone::is_none'
+        return '|%s| %s' % (', '.join(names), body_)
     t = try_operand(e)
     if t is not None:
         return canon(t, env) + '?'
     if k == 'If':
         c = e['ch']
+        if len(c) == 3 and peel(c[1]).get('k') == 'Lit' and peel(c[2]).get('k') == 'Lit' and \
+                {peel(c[1]).get('v'), peel(c[2]).get('v')} == {'true', 'false'}:
+            cc_ = conj(e, dict(env))
+            return cc_[0] if len(cc_) == 1 else '(%s)' % ' && '.join(sorted(cc_))
         en = dict(env)
         cs = conj(c[0], en)
         if len(c) > 2:
@@ -481,6 +490,11 @@ def conj(e, env, positive=True):
         return conj(e['ch'][0], env, False) + conj(e['ch'][1], env, False)
     if e.get('k') == 'Unary' and e['op'] == 'Not':
         return conj(e['ch'][0], env, not positive)
+    if e.get('k') == 'If' and len(e['ch']) == 3:
+        # `if c { true } else { false }` is c (and the swapped form its negation)
+        tb, fb = peel(e['ch'][1]), peel(e['ch'][2])
+        if tb.get('k') == 'Lit' and fb.get('k') == 'Lit' and {tb.get('v'), fb.get('v')} == {'true', 'false'}:
+            return conj(e['ch'][0], env, positive == (tb.get('v') == 'true'))
     mm = _matches_macro(e)
     if mm is not None:
         scr = canon(mm[0], env)
